@@ -110,6 +110,10 @@ func (p *Processor) Run(ctx context.Context) error {
 				continue
 			}
 
+			// Segments of the partition are handled in order. When one of them
+			// fails, stop for this cycle instead of moving on: committing the
+			// offset of a later segment would checkpoint past the failed one and
+			// its records would be filtered out for good. The next tick retries.
 			for _, seg := range segments {
 				if seg.Topic != activeLease.Topic || seg.Partition != activeLease.Partition {
 					continue
@@ -117,12 +121,12 @@ func (p *Processor) Run(ctx context.Context) error {
 
 				state, err := p.store.LoadOffset(ctx, seg.Topic, seg.Partition)
 				if err != nil {
-					continue
+					break
 				}
 
 				batches, err := p.decode.Decode(ctx, seg.SegmentKey, seg.IndexKey)
 				if err != nil {
-					continue
+					break
 				}
 
 				records := mapBatches(batches)
@@ -141,7 +145,7 @@ func (p *Processor) Run(ctx context.Context) error {
 				err = p.sink.Write(ctx, records)
 				unlock()
 				if err != nil {
-					continue
+					break
 				}
 
 				last := records[len(records)-1]
